@@ -98,6 +98,16 @@ def fixedWritesElsewhere : List (String × String) := []
 def guardedWritesElsewhere : List (String × String) := [("__cmp__", "maxDiff"), ("__cmp__", "minDiff")]
 def rationalWritesElsewhere : List (String × String) := []
 
+/-- every module-level or class-body-level name of the package bound to a mutable container (and every `global` statement): the rule registry
+    of droop/__init__.py, filled once at import and read-only afterwards.  Nothing else in the package can hold data from one election to
+    the next outside the objects an `Election` owns (the profile object excepted: C20's same-profile-twice probes) and the class attributes
+    modelled in `DroopModel/Session.lean`. -/
+def processContainers : List (String × String × String) :=
+  [("__init__.py", "<module>", "ruleByName"), ("__init__.py", "<module>", "ruleClasses")]
+
+/-- stores to a class attribute from inside a function, in any class but the three value classes: none -/
+def classWritesOutsideValues : List (String × String × String) := []
+
 /-- the statistics written outside `initialize` are reset by every successful `initialize`, whatever the tests evaluate to -/
 theorem elsewhere_is_reset (env : T → Bool) :
     guardedWritesElsewhere.all (fun ma => (evalW env guardedWrites).contains ma.2) = true := by
